@@ -88,3 +88,103 @@ Proof.
     + exfalso. apply N. apply eqR_Qeq. rewrite Q2R_0. exact Z.
     + rewrite Q2R_qmin, Q2R_1. f_equal. unfold Qdiv. rewrite Q2R_mult, Q2R_inv by exact N. reflexivity.
 Qed.
+
+(* asymmetric proposals (MALA): with lf = log q(x'|x) and lb = log q(x|x') the model's rule on the MALA ratio
+   (log pi(x') - log pi(x)) + (lb - lf) accepts exactly when u <= acc0 (pi(x) q(x'|x)) (pi(x') q(x|x')) *)
+Theorem accept_is_acc0_asym (g : guard) (l a b lf lb : Q) (u : R) :
+  0 < u -> u <= 1 -> Q2R l = ln u ->
+  (accept g (Fin l) (ext_add (ext_sub (Fin a) (Fin b)) (Fin (lb - lf))) (Fin a) = true <->
+   u <= acc0 (exp (Q2R b) * exp (Q2R lf)) (exp (Q2R a) * exp (Q2R lb))).
+Proof.
+  intros Hu Hu1 Hl. rewrite ext_sub_fin. cbn [ext_add]. rewrite accept_fin.
+  assert (E : acc0 (exp (Q2R b) * exp (Q2R lf)) (exp (Q2R a) * exp (Q2R lb)) = Rmin 1 (exp (Q2R (a + - b + (lb - lf))))).
+  { unfold acc0. pose proof (exp_pos (Q2R b)). pose proof (exp_pos (Q2R lf)).
+    assert (P : 0 < exp (Q2R b) * exp (Q2R lf)) by (apply Rmult_lt_0_compat; assumption).
+    destruct (Req_EM_T (exp (Q2R b) * exp (Q2R lf)) 0) as [Z|_]; [lra|]. f_equal.
+    unfold Qminus. rewrite !Q2R_plus, !Q2R_opp, !exp_plus, !exp_Ropp. field. split; lra. }
+  rewrite E, <- (decision_is_MH_R u _ Hu Hu1), <- Hl. split.
+  - intros [H0 H1]. apply Qle_Rle in H0. apply Qle_Rle in H1. rewrite Q2R_0 in H0. apply Rmin_glb; assumption.
+  - intro H. split; apply Rle_Qle.
+    + rewrite Q2R_0. eapply Rle_trans; [exact H | apply Rmin_l].
+    + eapply Rle_trans; [exact H | apply Rmin_r].
+Qed.
+
+(* ... which is the rule of one whole MALA transition of the model (forward density from the cached gradient at x, backward density
+   from the gradient evaluated at the proposal) *)
+Corollary mala_step_is_acc0 (logd : vec -> ext) (grad : vec -> vec) (g : guard) (s : Q) (st : state) (xi : vec) (l a b : Q) (u : R) :
+  0 < u -> u <= 1 -> Q2R l = ln u -> sld st = Fin b -> logd (mala_prop s (sx st) (sgr st) xi) = Fin a ->
+  let xs := mala_prop s (sx st) (sgr st) xi in
+  (snd (mala_step logd grad g s st xi (Fin l)) = true <->
+   u <= acc0 (exp (Q2R b) * exp (Q2R (log_prop s xs (sx st) (sgr st))))
+             (exp (Q2R a) * exp (Q2R (log_prop s (sx st) xs (grad xs))))).
+Proof.
+  intros Hu Hu1 Hl Hb Ha xs.
+  assert (Ha' : logd xs = Fin a) by exact Ha.
+  rewrite <- (accept_is_acc0_asym g l a b (log_prop s xs (sx st) (sgr st)) (log_prop s (sx st) xs (grad xs)) u Hu Hu1 Hl).
+  unfold mala_step. cbv zeta. fold xs. unfold mala_ratio. rewrite Ha', Hb.
+  match goal with |- context [if ?c then _ else _] => destruct c end; cbn [snd]; tauto.
+Qed.
+
+(* pCN: the model decides on the LIKELIHOOD ratio alone; for a symmetric bilinear prior precision B and a^2 + s^2 = 1 that is the
+   decision  u <= acc0 (prior(x) lik(x) q(x,x')) (prior(x') lik(x') q(x',x))  of the kernel whose target is the POSTERIOR and whose proposal
+   is the Crank-Nicolson move (zero-mean form; the centred form is the same statement in x - m) *)
+Lemma accept_ratio_Qeq g l r r' a a' : (r == r')%Q -> accept g (Fin l) (Fin r) (Fin a) = accept g (Fin l) (Fin r') (Fin a').
+Proof.
+  intro E. destruct (accept g (Fin l) (Fin r) (Fin a)) eqn:A; destruct (accept g (Fin l) (Fin r') (Fin a')) eqn:A'; try reflexivity.
+  - apply accept_fin in A. rewrite E in A. apply (accept_fin g l r' a') in A. congruence.
+  - apply accept_fin in A'. rewrite <- E in A'. apply (accept_fin g l r a) in A'. congruence.
+Qed.
+
+Theorem pcn_accept_is_acc0 (V : Type) (B : V -> V -> Q) (lin : Q -> V -> Q -> V -> V) :
+  (forall u v, B u v == B v u)%Q -> (forall a u b v w, B (lin a u b v) w == a * B u w + b * B v w)%Q ->
+  forall (g : guard) (a s : Q) (x x' : V) (lk lk' l : Q) (u : R),
+  (a * a + s * s == 1)%Q -> ~ (s == 0)%Q -> 0 < u -> u <= 1 -> Q2R l = ln u ->
+  (accept g (Fin l) (ext_sub (Fin lk') (Fin lk)) (Fin lk') = true <->
+   u <= acc0 (exp (Q2R (lk + log_prior V B x)) * exp (Q2R (log_q V B lin a s x x')))
+             (exp (Q2R (lk' + log_prior V B x')) * exp (Q2R (log_q V B lin a s x' x)))).
+Proof.
+  intros Hs Hl g a s x x' lk lk' l u H1 H2 Hu Hu1 Hlu.
+  rewrite <- (accept_is_acc0_asym g l (lk' + log_prior V B x') (lk + log_prior V B x) (log_q V B lin a s x x') (log_q V B lin a s x' x) u Hu Hu1 Hlu).
+  rewrite !ext_sub_fin. cbn [ext_add].
+  rewrite (accept_ratio_Qeq g l (lk' + - lk)
+             (lk' + log_prior V B x' + - (lk + log_prior V B x) + (log_q V B lin a s x' x - log_q V B lin a s x x')) lk' (lk' + log_prior V B x')).
+  - tauto.
+  - pose proof (pcn_ratio_is_MH V B lin Hs Hl a s x x' lk lk' H1 H2) as E. rewrite <- E. ring.
+Qed.
+
+(* non-vacuity of the link theorems: u = 1 (log u = 0), a state inside and a proposal outside the support, c = 1 *)
+Lemma link_example :
+  0 < 1 /\ 1 <= 1 /\ Q2R 0 = ln 1 /\ (is_fin (Fin 0) = true \/ Fin 0 = NInf) /\ (is_fin NInf = true \/ NInf = NInf) /\
+  ~ (Fin 0 = NInf /\ NInf = NInf) /\ ((3 # 5) * (3 # 5) + (4 # 5) * (4 # 5) == 1)%Q /\ ~ ((4 # 5) == 0)%Q.
+Proof.
+  split; [lra|]. split; [lra|]. split; [rewrite ln_1; apply Q2R_0|]. split; [left; reflexivity|]. split; [right; reflexivity|].
+  split; [intros [H _]; discriminate H|]. split; [reflexivity | intro H; discriminate H].
+Qed.
+
+(* the same at the level of one coordinate update of CWMH and of one whole pCN transition of the model *)
+Corollary cw_one_is_acc0 (logd : vec -> ext) (j : nat) (p : Q) (xt : vec) (l : Q) (u c : R) :
+  0 < u -> u <= 1 -> Q2R l = ln u -> 0 < c ->
+  (is_fin (logd xt) = true \/ logd xt = NInf) -> (is_fin (logd (upd xt j p)) = true \/ logd (upd xt j p) = NInf) ->
+  ~ (logd xt = NInf /\ logd (upd xt j p) = NInf) ->
+  (snd (cw_one logd GNanInf j p (Fin l) xt (logd xt)) = true <-> u <= acc0 (dens (logd xt) * c) (dens (logd (upd xt j p)) * c)).
+Proof.
+  intros Hu Hu1 Hl Hc Hx Hy Hxy.
+  rewrite <- (accept_is_acc0 l u c (logd xt) (logd (upd xt j p)) Hu Hu1 Hl Hc Hx Hy Hxy).
+  unfold cw_one. cbv zeta.
+  destruct (accept GNanInf (Fin l) (ext_sub (logd (upd xt j p)) (logd xt)) (logd (upd xt j p))); cbn [snd]; tauto.
+Qed.
+
+Corollary pcn_step_is_acc0 (V : Type) (B : V -> V -> Q) (lin : Q -> V -> Q -> V -> V) :
+  (forall u v, B u v == B v u)%Q -> (forall a u b v w, B (lin a u b v) w == a * B u w + b * B v w)%Q ->
+  forall (lik : vec -> ext) (cen : bool) (g : guard) (a s : Q) (m : vec) (st : state) (xi : vec) (X X' : V) (lk lk' l : Q) (u : R),
+  (a * a + s * s == 1)%Q -> ~ (s == 0)%Q -> 0 < u -> u <= 1 -> Q2R l = ln u ->
+  sld st = Fin lk -> lik (pcn_prop cen a s m (sx st) xi) = Fin lk' ->
+  (snd (pcn_step lik cen g a s m st xi (Fin l)) = true <->
+   u <= acc0 (exp (Q2R (lk + log_prior V B X)) * exp (Q2R (log_q V B lin a s X X')))
+             (exp (Q2R (lk' + log_prior V B X')) * exp (Q2R (log_q V B lin a s X' X)))).
+Proof.
+  intros Hs Hl lik cen g a s m st xi X X' lk lk' l u H1 H2 Hu Hu1 Hlu Hst Hstar.
+  rewrite <- (pcn_accept_is_acc0 V B lin Hs Hl g a s X X' lk lk' l u H1 H2 Hu Hu1 Hlu).
+  rewrite pcn_step_unfold. cbv zeta. rewrite Hst, Hstar.
+  destruct (accept g (Fin l) (ext_sub (Fin lk') (Fin lk)) (Fin lk')); cbn [snd]; tauto.
+Qed.
